@@ -13,6 +13,12 @@ import (
 
 var opaqueErrType types.Type = types.NewNamed(types.NewTypeName(0, nil, "opaqueError", nil), types.NewStruct(nil, nil), nil)
 
+// redirect asks invoke to call another function instead (stub kind "call:<name>").
+type redirect struct {
+	fn   *ssa.Function
+	args []Value
+}
+
 type handler func(in *Interp, st *State, fr *Frame, fn *ssa.Function, args []Value) Value
 
 func noop(in *Interp, st *State, fr *Frame, fn *ssa.Function, args []Value) Value {
@@ -56,6 +62,26 @@ func (in *Interp) intrinsic(fn *ssa.Function) handler {
 		name = fn.Origin().String()
 	}
 	if k, ok := in.Cfg.Stubs[name]; ok {
+		if strings.HasPrefix(k, "call:") {
+			// replace the callee by a harness-defined function of the same signature
+			target := k[5:]
+			var repl *ssa.Function
+			for _, pkg := range in.Prog.AllPackages() {
+				if f := pkg.Func(target); f != nil && isVerifFile(in, f) {
+					repl = f
+					break
+				}
+			}
+			if repl == nil {
+				panic(unsupported("stub target not found: " + target))
+			}
+			if repl == fn {
+				return nil
+			}
+			return func(in *Interp, st *State, fr *Frame, fn *ssa.Function, args []Value) Value {
+				panic(redirect{fn: repl, args: args})
+			}
+		}
 		switch k {
 		case "noop":
 			return noop
